@@ -200,6 +200,13 @@ pub fn random_banks<R: Rng>(rng: &mut R, ci: u64) -> (u32, Vec<BankB>, &'static 
                 _ => dw + rng.gen_range(2..40),
             };
             let mut wave = wire_wave(w, n);
+            // a negative baseline (the footer holds the FLOOR of the mean of the first 64 samples)
+            if r == SIM && rng.gen_bool(0.25) {
+                let shift = *[6001i16, 3001, 2990, 3030].choose(rng).unwrap();
+                for v in wave.iter_mut() {
+                    *v -= shift;
+                }
+            }
             // rail and near-rail samples behind the baseline window (simulation run: values are compared exactly)
             if r == SIM && n > 70 && rng.gen_bool(0.35) {
                 for _ in 0..rng.gen_range(1..4) {
@@ -336,6 +343,25 @@ pub fn sweep(run: &mut Runner, runs: &[u32], stride: usize) {
             let mut banks = pad_banks(&board, dev, mac, chip, &[(k, pad_wave(c, rw, dp + 3))], 4000, n as u32);
             banks.push(trg_bank_b(n as u32));
             emit_event(run, r, "sweep-pad", format!("p{c}.{rw}"), banks, json!("ok"), Detail::Slots);
+        }
+    }
+}
+
+
+/// Pads that are not (fully) calibrated in a real-data run: an event with a waveform on one of them must be
+/// rejected - whatever half of the calibration exists.  `all`: every such pad, else only the partial ones.
+pub fn sweep_uncalibrated(run: &mut Runner, data_dir: &str, all: bool) {
+    for (r, seg) in [(11084u32, "r11084"), (12000, "r11084"), (9277, "r9277")] {
+        let (partial, missing) = crate::calib::uncalibrated_pads(data_dir, seg);
+        let maps = maps_for_cached(r);
+        let dp = delay(r, true);
+        let list = if all { missing } else { partial };
+        for (n, &(c, rw)) in list.iter().enumerate() {
+            if let Some((board, dev, mac, chip, k)) = maps.pad.get(&(c, rw)).cloned() {
+                let mut banks = pad_banks(&board, dev, mac, chip, &[(k, pad_wave(c, rw, dp + 3))], 4000, n as u32);
+                banks.push(trg_bank_b(n as u32));
+                emit_event(run, r, "sweep-uncalibrated", format!("u{c}.{rw}"), banks, json!("err"), Detail::Slots);
+            }
         }
     }
 }
